@@ -193,7 +193,7 @@ def exhaustive_part(v, universe, invariants, gens, owned, lenbonus=0, opts=None,
         # executions differing from the specification -> TLC judges the RECORDED observations
         v.cov["executions_differing_from_spec"] = v.cov.get("executions_differing_from_spec", 0) + len(mism)
         mism.sort(key=lambda m: 0 if any(c in owned for c in m["clauses"]) else 1)
-        todo = mism[:max_judge]
+        todo = common.spread(mism, lambda m: (m["d"], tuple(sorted(m["clauses"])), json.dumps(m["gen"])), max_judge)
         if todo:
             extra = [(m["rec"], {"d": m["d"], "gen": m["gen"], "extra": m["extra"]}) for m in todo]
             judged = judge_cases(v, univ, [], gens, owned,
